@@ -229,6 +229,7 @@ struct Agg {
   std::map<string, uint64_t> probes, counts;
   std::vector<string> samples;
   std::set<string> known_reported;
+  std::set<uint64_t> shapes;
   FILE *hashf = nullptr;
 };
 
@@ -302,6 +303,8 @@ static int cmd_run(int argc, char **argv) {
     agg.runs++;
     for (auto &kv : out.probes) agg.probes[kv.first] += kv.second;
     for (auto &kv : out.counts) agg.counts[kv.first] += kv.second;
+    agg.shapes.insert(out.shapes.begin(), out.shapes.end());
+    agg.counts["distinct_lsm_shapes_this_worker"] = agg.shapes.size();
     if (out.nontrivial) {
       agg.nontrivial++;
       if (agg.hashf) { uint64_t h = mix64(p.hash(), out.event_hash); fwrite(&h, 8, 1, agg.hashf); }
